@@ -10,7 +10,8 @@ SOURCES = cp.SOURCES
 N_CASES = {"quick": 250, "thorough": 4000}
 RULE = ("generated causally consistent well-formed file sets (device work starts no earlier than its launch call; every synchronising call returns after the work it "
         "waits for; FIFO kernels on 1-3 streams; cudaDeviceSynchronize / cudaStreamSynchronize with Context / Stream Sync records; missing and orphan kernels; "
-        "profiler steps and user annotations), window drawn from {whole trace, ProfilerStep (default / one instance / a range), a user annotation}, with and "
+        "profiler steps and user annotations; every fifth case from the synchronisation-scenario template family, every fifth from the CUDA-event template family: "
+        "cudaEventRecord / cudaEventSynchronize / cudaStreamWaitEvent with Event Sync / Stream Wait Event records), window drawn from {whole trace, ProfilerStep (default / one instance / a range), a user annotation}, with and "
         "without CRITICAL_PATH_ADD_ZERO_WEIGHT_LAUNCH_EDGE; the graph the analysis returns is judged by the verified checker check_C08 evaluated in Coq: node "
         "bijection, every edge forward in time with the weight its type prescribes, launch / kernel-kernel / sync edges joining what they stand for, acyclicity by a "
         "rank witness; non-trivial = the graph has edges of at least four types; distinct = hash of file set and parameters")
@@ -112,5 +113,5 @@ LEVEL_TEXT = ("Proof (verified checker): C08_check_sound: a graph accepted by ch
               "kernel-to-kernel / synchronisation edges join what they stand for, and (Dag.acyclic) no path returns to its start. The checker is evaluated in "
               "Coq on the graph critical_path_analysis returns for every generated window; the builder itself is not modelled (partial).")
 LEVEL_NOTE = ("Translation-validation style: the theorem is about the checker, the tie to the code is the per-run evaluation of the checker on the real graph. "
-              "The event-record / stream-wait branch is not generated. networkx's topological order is an unchecked hint for the checked rank witness.")
+              "Event-record / stream-wait synchronisation is generated but attaches no edge under pandas 3 (see assumptions), so the event-sync edge rules are exercised only vacuously. networkx's topological order is an unchecked hint for the checked rank witness.")
 TECHNIQUE = "Coq-verified checker (reflection of the property's clauses; acyclicity by rank function) evaluated by vm_compute on every real graph"
